@@ -114,6 +114,8 @@ def replaceJudge (f : List String) (out : String) : String :=
 /-!
   c20.log  directives conc requests errlens wrap writer   (wrap: - | errors | rewrite | gzip; writer: plain | rf | h1, Go side only)
      ops   h<code> | w<n> | c<n> io.Copy | n<n> io.CopyN | s<n> ServeContent | f Flush | p<hex> r.URL.Path = … | u<hex> r.URL = new URL
+           l<n> w.Header().Set("Content-Length", n): a Write that would exceed it is REFUSED by the writer under the
+                recorder (http.ErrContentLength) — only in scripts of h/w/f/p/u/l ops and not with wrap = gzip
      directives  ','-separated  D<hex scope>[:<hex except>]*        (one `log` directive each, in file order)
      requests    ','-separated  <hex path>:<ops>:<ret>:<0|1 panics>  ops '.'-separated h<code> | w<n>
      errlens     ','-separated  <status>=<length of the default error body>
@@ -142,6 +144,7 @@ def parseOp (s : String) : Option (List Op) :=
   else if s.startsWith "c" || s.startsWith "n" then arg.map fun n => if n = 0 then [] else [Op.write n]
   else if s.startsWith "s" then arg.map fun n => [Op.header 200, Op.write n]
   else if s = "f" then some [Op.write 0]
+  else if s.startsWith "l" then arg.map fun n => [Op.declare n]
   -- p<hex path>: r.URL.Path = …   u<hex path>: r.URL = &url.URL{Path: …}.  No writer operation;
   -- the new path is kept in the outcome (see parseRequest) and the model does not read it.
   else if s.startsWith "p" || s.startsWith "u" then (Driver.unhex (s.drop 1).toString).map fun _ => []
@@ -158,6 +161,10 @@ def parseRequest (s : String) : Option (Bytes × Outcome) :=
   match s.splitOn ":" with
   | [p, ops, ret, pan] => do
     let opl := if ops = "" then [] else ops.splitOn "."
+    -- a declared Content-Length only next to plain WriteHeader/Write/Flush calls: net/http's
+    -- ReadFrom fast path (io.Copy, ServeContent) does not enforce the declared length
+    if (opl.any fun o => o.startsWith "l") &&
+       (opl.any fun o => o.startsWith "c" || o.startsWith "n" || o.startsWith "s") then none
     let ops ← (opl.mapM parseOp).map List.flatten
     pure (← Driver.unhex p, { ops := ops, ret := ← ret.toNat?, panics := pan = "1", newPath := lastPath opl })
   | _ => none
@@ -180,6 +187,7 @@ def parseLog : List String → Option LogCase
     let ds ← (if ds = "" then some [] else (ds.splitOn ",").mapM parseDirective)
     let reqs ← (if reqs = "" then some [] else (reqs.splitOn ",").mapM parseRequest)
     let el ← parseErrLens errlens
+    if wrap = "gzip" && (reqs.any fun (_, o) => o.ops.any fun op => match op with | .declare _ => true | _ => false) then none
     let errLen := fun s => ((el.find? fun p => p.1 == s).map (·.2)).getD 0
     -- an `errors` directive between log and the handler changes what log's Next does
     -- wrap = rewrite (the real rewrite directive changes r.URL.Path in place) needs nothing here:
